@@ -216,14 +216,11 @@ for _mask, _pm in ((0, 0), (7, 0), (7, 7), (7, 5), (7, 2), (5, 4), (2, 2), (3, 1
     add("trk_allpos_%d_%d" % (_mask, _pm), "rsadsb_common", T + "obl_all_position", args="%d, %d" % (_mask, _pm), props=["C14", "C01"], stubs=["fmt"], unwind=6,
         features=("alloc",), bounded="<= 3 records, concrete contents; executed natively when the map is not empty (CBMC memory)", tier="quick" if _mask == 0 else "native-bounded",
         domain="map subset %d with positions on %d" % (_mask, _pm), functions=["Airplanes::all_position"], timeout=600)
-add("trk_incr_time", "rsadsb_common", T + "obl_incr_time", props=["C15", "C12", "C01"], stubs=["fmt", ENTRY, NOW], unwind=6, features=("std",),
-    domain="fully symbolic record x all 2^32 clock values", functions=["Airplanes::incr_messages"], timeout=900)
-_PR = [(100000, 90000, 10), (100000, 90001, 10), (100000, 89999, 10), (100300, 99800, 1), (100300, 99200, 1), (100000, 100000, 0),
-       (5000, 6000, 10), (100999, 100001, 1), (101000, 100001, 1), (3600000, 0, 3600), (3600000, 1, 3600)]
-for _i, (_now, _last, _thr) in enumerate(_PR):
-    add("trk_prune_%d" % _i, "rsadsb_common", T + "obl_prune", args="%d, %d, %d" % (_now, _last, _thr), props=["C15", "C01"],
-        stubs=["fmt", NOW], unwind=8, features=("std",), bounded="one tracked aircraft; concrete clock / last-heard (ms) / threshold values around the boundary",
-        tier="quick" if _i < 7 else "thorough", domain="now=%d ms last-heard=%d ms T=%d s" % (_now, _last, _thr), functions=["Airplanes::prune"], timeout=600)
+add("trk_c15_native", "rsadsb_common", T + "obl_c15_native", props=["C15"], stubs=[], tier="native-bounded", features=("std",),
+    bounded="real clock and real map, concrete cases: last-heard refresh (incr_messages, action), expiry boundary (0.5 s kept / 1.5 s removed / clock backwards removed, T = 1) at six phases of the wall-clock second, T = 0, re-appearance after expiry",
+    domain="native concrete cases", functions=["Airplanes::prune", "Airplanes::incr_messages", "Airplanes::action"])
+add("trk_incr_count", "rsadsb_common", T + "obl_action_other_me", args="false", props=["C15", "C12"], stubs=["fmt", ENTRY], unwind=8,
+    features=("alloc",), domain="fully symbolic record: every DF17 frame is counted exactly once (the counted frames are the ones that refresh last-heard)", functions=TRK_FN, timeout=900)
 
 
 def select(prop, tier):
